@@ -826,26 +826,28 @@ def zero : V := .obj "BundlePropertyExperimenter" [.num 0, .num 0, .num 0, .num 
 /-- NewBundlePropertyExperimenter() -/
 def new : V := .obj "BundlePropertyExperimenter" [.num Gen.openflow13.OFPBPT_EXPERIMENTER, .num 0, .num 0, .num 0, .bytes []]
 def len : V → R UInt16
-  | .obj "BundlePropertyExperimenter" [_, _, _, _, .bytes d] => .ok (12 + n16 d.length)
+  | .obj "BundlePropertyExperimenter" [_, _, _, _, .bytes d] => .ok ((12 + n16 d.length + 7) / 8 * 8)
   | _ => .panic
 def lenM (v : V) : R (UInt16 × V) := do let l ← len v; same l v
-/-- `data = make([]byte, 0)` followed by `PutUint16(data[0:], …)`: the encoder always panics -/
-def marshalM (_ : V) : R (Bytes × V) := .panic
-/-- the payload is only kept when the buffer is SHORTER than the declared length -/
-def unmarshal (recv : V) (data : Slice) : R V := do
-  let l ← len recv
-  if data.len < l.toNat then .err else do
+/-- `p.Length = 12 + len(p.data)`, then the 12-byte header, the payload and zero padding up to Len() -/
+def marshalM (v : V) : R (Bytes × V) :=
+  match v with
+  | .obj "BundlePropertyExperimenter" [.num t, _, .num ei, .num et, .bytes d] => do
+    let l ← len v
+    let ln := n16 (12 + d.length)             -- the length field excludes the padding
+    let bs ← fill l.toNat [pU16 t, .put (be16 ln), pU32 ei, pU32 et, pCopy d]
+    .ok (bs, .obj "BundlePropertyExperimenter" [.num t, V.u16 ln, .num ei, .num et, .bytes d])
+  | _ => .panic
+/-- header, then a copy of `data[12:Length]` -/
+def unmarshal (_recv : V) (data : Slice) : R V :=
+  if data.len < 12 then .err else do
     let t ← data.u16From 0
     let ln ← data.u16From 2
     let ei ← data.u32From 4
     let et ← data.u32From 8
-    if data.len < ln.toNat then do
-      let s ← data.fromR 12
-      pure (.obj "BundlePropertyExperimenter" [V.u16 t, V.u16 ln, V.u32 ei, V.u32 et, .bytes s.bytes])
-    else
-      match recv with
-      | .obj _ [_, _, _, _, d] => pure (.obj "BundlePropertyExperimenter" [V.u16 t, V.u16 ln, V.u32 ei, V.u32 et, d])
-      | _ => .panic
+    if ln.toNat < 12 || data.len < ln.toNat then .err else do
+      let s ← data.sliceR 12 ln.toNat
+      pure (.obj "BundlePropertyExperimenter" [V.u16 t, V.u16 ln, V.u32 ei, V.u32 et, .bytes (makeCopy (ln.toNat - 12) s.bytes)])
 end BundlePropertyExperimenter
 
 /-! ### leaf table: every kind of this file that holds no `util.Message`-typed child -/
@@ -1028,15 +1030,17 @@ end VendorHeader
 namespace BundleAdd
 def zero : V := .obj "BundleAdd" [.num 0, .bytes (zeros 2), .num 0, .nil, .list []]
 
-/-- Properties is a slice of VALUES -/
+/-- Properties is a slice of VALUES; the message is padded to 8 bytes when properties follow (uint16 arithmetic) -/
 def lenWith (child : MsgLenF) : V → R (UInt16 × V)
   | .obj "BundleAdd" [i, p, f, m, .list ps] => do
     let (lm, m) ← child m                      -- nil Message: panic
     let (ls, _) ← mapM2 BundlePropertyExperimenter.lenM ps
-    pure (4 + 2 + 2 + lm + sum16 ls, .obj "BundleAdd" [i, p, f, m, .list ps])
+    let base : UInt16 := 4 + 2 + 2 + lm
+    let l := if ps.isEmpty then base else (base + 7) / 8 * 8 + sum16 ls
+    pure (l, .obj "BundleAdd" [i, p, f, m, .list ps])
   | _ => .panic
 
-/-- any property makes the encoder panic (BundlePropertyExperimenter.MarshalBinary always does) -/
+/-- the properties are encoded from copies (range over a slice of values): their Length fields stay as they were -/
 def marshalWith (childLen : MsgLenF) (childMar : MsgMarF) (v : V) : R (Bytes × V) := do
   let (l, v) ← lenWith childLen v
   match v with
@@ -1045,7 +1049,9 @@ def marshalWith (childLen : MsgLenF) (childMar : MsgMarF) (v : V) : R (Bytes × 
     let _ ← fill l.toNat pre
     let (mb, m) ← childMar m                   -- an error is returned
     let (pbs, _) ← mapM2 BundlePropertyExperimenter.marshalM ps
-    let bs ← fill l.toNat (pre ++ [pCopy mb] ++ pbs.map pCopy)
+    -- copy(data[n:], msgBytes); n += len(msgBytes); with properties: n = (n + 7) / 8 * 8  (int arithmetic)
+    let adv := if ps.isEmpty then mb.length else (8 + mb.length + 7) / 8 * 8 - 8
+    let bs ← fill l.toNat (pre ++ [.copyAdv mb adv] ++ pbs.map pCopy)
     .ok (bs, .obj "BundleAdd" [.num i, p, .num f, m, .list ps])
   | _ => .panic
 
@@ -1053,16 +1059,21 @@ structure St where
   n : Nat
   ps : List V
 
-/-- `parseF` = Parse; a nil message (Parse's `break` types) is dereferenced by `b.Message.Len()` -/
-def unmarshalWith (parseF : Slice → R V) (childLen : MsgLenF) (recv : V) (data : Slice) : R V :=
+/-- `parseF` = Parse on `data[8 : 8+msgLen]`, msgLen from the embedded header; a nil message (Parse's `break` types)
+    is an error -/
+def unmarshalWith (parseF : Slice → R V) (_childLen : MsgLenF) (recv : V) (data : Slice) : R V :=
   match recv with
-  | .obj "BundleAdd" [_, p, _, _, ps0] => do
+  | .obj "BundleAdd" [_, p, _, _, ps0] =>
+    if data.len < 16 then .err else do
     let i ← data.u32From 0
     let f ← data.u16From 6
-    let d ← data.fromR 8
+    let ml ← data.u16From 10
+    let msgLen := ml.toNat
+    if msgLen < 8 || 8 + msgLen > data.len then .err else do
+    let d ← data.sliceR 8 (8 + msgLen)
     let m ← parseF d
-    let (lm, m) ← childLen m
-    let n := 8 + lm.toNat
+    if m.isNil then .err else do
+    let n := 8 + msgLen
     if n < data.len then do
       let st ← goLoop (σ := St) (data.len + 1) (fun s => s.n < data.len) (·.n)
         (fun s => do
@@ -1070,7 +1081,7 @@ def unmarshalWith (parseF : Slice → R V) (childLen : MsgLenF) (recv : V) (data
           let pr ← BundlePropertyExperimenter.unmarshal BundlePropertyExperimenter.zero dp
           let l ← BundlePropertyExperimenter.len pr
           pure { n := s.n + l.toNat, ps := s.ps ++ [pr] })
-        { n := n, ps := [] }
+        { n := (n + 7) / 8 * 8, ps := [] }
       pure (.obj "BundleAdd" [V.u32 i, p, V.u16 f, m, .list st.ps])
     else pure (.obj "BundleAdd" [V.u32 i, p, V.u16 f, m, ps0])
   | _ => .panic
